@@ -6,6 +6,8 @@ CONSTANTS
   MaxTicks = 1
   MaxCrashes = 0
   MaxOps = 3
+  MaxOps2 = 3
+  FirstSess = "c1"
   RunEnabled = FALSE
   Ops = {"submit", "release", "status"}
   FindUnitHoldsRLock = FALSE
